@@ -109,6 +109,33 @@ pub fn run(ctx: &mut Ctx) {
         if k == 0 { ctx.sample(format!("session user={:?} tape={} : M1 accepted, 40 single-bit flips of M1 and of M2, A/B/salt bit flips, other password/username, case-only change", u, hex(&tape))); }
     }
 
+    // ---- credentials as typed (any case, letters next to the characters that surround the ASCII letter ranges):
+    // "the real credentials" are the upper-cased TEXT, so every value of the exchange must be the textbook value
+    // for Rust's own `to_ascii_uppercase` of what was typed - computed here without the crate's normalisation
+    {
+        let mut r3 = ctx.rng("typed-credentials");
+        const EDGE: &[u8] = b"az{|}~`@[^_AZ09 !/:";
+        let gen = |r: &mut Rng, len: usize| -> String { (0..len).map(|_| if r.chance(3, 4) { *r.pick(EDGE) as char } else { *r.pick(PRINTABLE) as char }).collect() };
+        for k in 0..(if ctx.quick() { 60 } else { 600 }) {
+            let (u, p) = (gen(&mut r3, 1 + (k * 7) % 16), gen(&mut r3, 1 + (k * 11) % 16));
+            let tape = r3.bytes(112);
+            ctx.oracle_runs += 1;
+            let l = match login(&u, &p, &u, &p, &tape) { Ok(l) => l, Err(_) => continue };
+            let (uu, pu) = (u.to_ascii_uppercase(), p.to_ascii_uppercase());
+            let sp = spec_session(uu.as_bytes(), pu.as_bytes(), &l.salt, &tape[32..64], &tape[64..96], GENERATOR, &NLE);
+            if sp.v != l.v || sp.m1 != l.m1 || sp.m2 != l.m2 || sp.k != l.ks || sp.k != l.kc {
+                ctx.fail("typed_credentials", format!("{{\"what\":\"verifier / M1 / M2 / K of a completed login are not the values determined by the upper-cased text of the credentials\",\"user\":{},\"password\":{},\"tape\":\"{}\",\"differs\":{}}}",
+                    jstr(&u), jstr(&p), hex(&tape), jstr(&format!("v:{} m1:{} m2:{} ks:{} kc:{}", sp.v != l.v, sp.m1 != l.m1, sp.m2 != l.m2, sp.k != l.ks, sp.k != l.kc))));
+            }
+            // and the server set up from the typed text accepts the textbook proof of the upper-cased text, nothing else
+            let un = ns(&u);
+            let out = server_api(un.as_ref(), l.v, l.salt, &tape[32..64], sp.a_pub, &[sp.m1], &tape[96..112]);
+            if !(out.len() > 2 && out[2].first() == Some(&0u8)) {
+                ctx.fail("typed_credentials", format!("{{\"what\":\"the server refuses the proof determined by the upper-cased text of the credentials\",\"user\":{},\"password\":{},\"tape\":\"{}\"}}", jstr(&u), jstr(&p), hex(&tape)));
+            }
+        }
+    }
+
     // ---- sessions whose secret S has a rare byte shape (found with textbook arithmetic only): the proof
     // the server must accept is the textbook one, whatever the zero bytes of S do to the key derivation
     let shapes: Vec<(&str, usize, Box<dyn Fn(&[u8; 32]) -> bool + Sync>)> = vec![
